@@ -65,6 +65,7 @@ type c29World struct {
 	recs       []*c29Sub
 	n          int
 	reconnects int
+	pendingApp int
 }
 
 type c29Sub struct {
@@ -75,10 +76,11 @@ type c29Sub struct {
 }
 
 type c29Handler struct {
-	remove  func()
-	removed bool // remove returned
-	after   int
-	got     int
+	remove   func()
+	removed  bool // remove returned
+	after    int
+	got      int
+	removing bool
 }
 
 func init() {
@@ -261,7 +263,7 @@ func (w *c29World) setupSubs() {
 	w.v = w.fw.AddNode("V")
 	w.h = w.fw.ConnectScript(w.v, "H", 0)
 	w.h.WantChannels(true, "c1", "c2")
-	s.ArmFraction([]int{100, 100, 50, 0}[t.Draw(4, "arm-pct")], []string{"floodsub/deliver", "floodsub/release", "floodsub/handle-valid", "floodsub/handle-publish", "harness/stream-close"})
+	s.ArmFraction([]int{100, 100, 50, 0}[t.Draw(4, "arm-pct")], []string{"floodsub/deliver", "floodsub/release", "floodsub/handle-valid", "floodsub/handle-publish", "harness/stream-close", "harness/handler"})
 }
 
 func (w *c29World) actionsSubs(s *dsim.Sim, add func(dsim.Action)) {
@@ -285,8 +287,14 @@ func (w *c29World) actionsSubs(s *dsim.Sim, add func(dsim.Action)) {
 		add(dsim.Action{Name: "3op:subscribe", Weight: 5, Fire: func() {
 			w.ops++
 			ch := chs[t.Draw(2, "ch")]
-			r := &c29Sub{sr: w.v.Subscribe(ch)}
-			w.recs = append(w.recs, r)
+			// application calls run as their own tasks: a handler may be parked while it
+			// holds the subscription lock, and the driver itself must never wait for a lock
+			w.pendingApp++
+			go func() {
+				r := &c29Sub{sr: w.v.Subscribe(ch)}
+				w.recs = append(w.recs, r)
+				w.pendingApp--
+			}()
 		}})
 	}
 	for i, r := range w.recs {
@@ -312,23 +320,29 @@ func (w *c29World) actionsSubs(s *dsim.Sim, add func(dsim.Action)) {
 			add(dsim.Action{Name: fmt.Sprintf("3op:add-handler:%d", i), Weight: 2, Fire: func() {
 				w.ops++
 				h := &c29Handler{}
-				h.remove = r.sr.Sub.AddHandler(func(m pubsub.Message) {
-					h.got++
-					if h.removed || r.released {
-						h.after++
-					}
-				})
 				r.extra = append(r.extra, h)
+				w.pendingApp++
+				go func() {
+					h.remove = r.sr.Sub.AddHandler(func(m pubsub.Message) {
+						s.Yield("harness/handler", fmt.Sprintf("extra%d", i))
+						h.got++
+						if h.removed || r.released {
+							h.after++
+						}
+					})
+					w.pendingApp--
+				}()
 			}})
 		}
 		for j, h := range r.extra {
 			j, h := j, h
-			if !h.removed {
+			if !h.removed && h.remove != nil && !h.removing {
 				add(dsim.Action{Name: fmt.Sprintf("3op:remove-handler:%d.%d", i, j), Weight: 2, Fire: func() {
 					w.ops++
 					if s.ParkedCount() > 0 {
 						s.Count("fault:handler-removed-racing-delivery")
 					}
+					h.removing = true
 					go func() { h.remove(); h.removed = true }()
 				}})
 			}
@@ -429,6 +443,9 @@ func (w *c29World) Done(s *dsim.Sim) bool {
 			if r.relBusy {
 				return false
 			}
+		}
+		if w.pendingApp > 0 {
+			return false
 		}
 		return w.idleSince != 0 && s.Now()-w.idleSince >= time.Second
 	}
